@@ -161,10 +161,13 @@ def check_C02(tier):
             dict(n=80 * k, mode="seq", pressure=False, budget=(8, 30), wide=True, tag="plain")]
     return stages.stage_check(
         "C02", tier, [("fun", "core")], ["core"], plan, maxsteps=T(tier, 6000, 20000), capture_twins=True,
+        adversarial_labels=T(tier, 60, 600),
         rule="Fun machine vs Core machine on the real compile_prog output (effects only in sequenced positions); Core output "
              "walked by spec/CoreTyping.tla; programs with heavy name reuse (let/pattern/label binders, generated-looking "
              "names) and their alpha-renamed twins whose binders are all distinct and look compiler-generated: a failure "
-             "that the twin does not show is name capture, a failure of a twin is always new.")
+             "that the twin does not show is name capture, a failure of a twin is always new. Adaptive adversarial labels: a "
+             "sample of programs is recompiled with a user definition named exactly like a label the compiler generated "
+             "(appended and prepended).")
 
 
 def check_C03(tier):
@@ -572,5 +575,217 @@ def check_C12(tier):
                     "rule": "stage-event traces of generated and capacity-boundary programs validated by spec/TracePipeline.tla (a panic is in "
                             "no alphabet; capacity only beyond the documented limits); every intermediate program of every accepted program "
                             "walked on all paths by spec/CoreTyping.tla / spec/AxCutTyping.tla"},
+                   time.time() - t0, len(viols))
+    return 1 if new else 0
+
+
+# ---------------------------------------------------------------------------------------------- C14
+def adversarial_variants(src, text_by_backend):
+    """append definitions / types whose names are exactly the names the compiler generated for this program"""
+    import re
+    names = set()
+    for t in text_by_backend.values():
+        for m in re.finditer(r"^([A-Za-z_][\w]*):", t, re.M):
+            names.add(m.group(1))
+    defs, types = [], []
+    for n in sorted(names):
+        if n in ("asm_main", "cleanup"):
+            defs.append(n)                       # user definition called asm_main / cleanup
+        elif re.match(r"^lab\d+$", n):
+            defs.append(n)                       # user definition called lab<n>
+            defs.append(n[:-1] if n.endswith("_") else n)
+        elif n.endswith("_") and n[0].islower():
+            base = n[:-1]
+            defs.append(base + "_")              # user definition whose label collides with a generated '<def>_'
+        elif n[0].isupper() and re.search(r"_\d+$", n):
+            types.append(n)                      # user type called like a table label
+    extra = ""
+    for d in sorted(set(defs))[:12]:
+        if re.match(r"^[a-z][a-zA-Z0-9_]*$", d) and ("def %s(" % d) not in src:
+            extra += "def %s(): i64 { 7 }\n" % d
+    for t in sorted(set(types))[:6]:
+        if re.match(r"^[A-Z][a-zA-Z0-9_]*$", t) and ("data %s " % t) not in src:
+            extra += "data %s { Mk%s }\ndef use_%s(x: %s): i64 { x.case { Mk%s => 1 } }\n" % (t, t, t.lower(), t, t)
+    return src + extra if extra else None
+
+
+def check_C14(tier):
+    import native, refine, time, collections
+    t0 = time.time()
+    build_harness()
+    work = fresh_dir(WORK, "C14")
+    k = T(tier, 1, 10)
+    plan = [dict(n=60 * k, mode="any", pressure=True, budget=(8, 26), wide=True, max_main_params=5, tag="press"),
+            dict(n=40 * k, mode="any", pressure=False, budget=(8, 26), wide=True, tag="plain")]
+    art, index, args, meta = stages.build(work, plan, emit="x86,a64,rv64")
+    # adversarial naming: recompile with user names equal to the names the compiler generated
+    adv = []
+    for n, e in list(index.items()):
+        src = meta.get(n, {}).get("src")
+        if not src or len(adv) >= T(tier, 40, 400):
+            continue
+        texts = {be: open(os.path.join(art, "%s.%s.asm" % (n, be))).read() for be in ("x86", "a64") if os.path.exists(os.path.join(art, "%s.%s.asm" % (n, be)))}
+        v = adversarial_variants(src, texts)
+        if v:
+            adv.append({"name": n + "_adv", "kind": "fun", "src": v})
+            meta[n + "_adv"] = {"src": v, "origin": "adversarial"}
+    r = rng_for("C14")
+    directed = GL.fam_literals(r, 12 * k) + GL.fam_ops(r, 40 * k) + GL.fam_ifc(r, 40 * k)
+    lst = adv + [{"name": nm, "kind": "axcut", "prog": p, "linear": True} for nm, p, a in directed]
+    lp = os.path.join(work, "adv.json")
+    json.dump(lst, open(lp, "w"))
+    art2 = os.path.join(work, "art2")
+    sccv("pipeline", lp, art2, "x86,a64,rv64")
+    index2 = {c["name"]: c for c in json.load(open(os.path.join(art2, "index.json")))}
+    sccv("config", art)
+    cfgs = {be: json.load(open(os.path.join(art, be + ".config.json"))) for be in ("x86", "a64", "rv64")}
+    files, texts = [], {}
+    stats = collections.Counter()
+    for a_, idx in ((art, index), (art2, index2)):
+        for n in idx:
+            for be in ("x86", "a64", "rv64"):
+                p = os.path.join(a_, "%s.%s.asm" % (n, be))
+                if not os.path.exists(p):
+                    continue
+                c = refine.load_code(a_, n, be)
+                labs = list(c["labels"])
+                clauses = {t: sum(1 for l in labs if l.startswith(t + "_") and l != t) for t in labs}
+                files.append({"name": "%s:%s" % (n, be), "backend": be, "code": c["code"], "labels": c["labels"], "dups": c["dups"],
+                              "clauses": clauses, "jump_length": cfgs[be]["jump_length"]})
+                texts["%s:%s" % (n, be)] = c["text"]
+    wd = os.path.join(work, "tlc")
+    os.makedirs(wd, exist_ok=True)
+    fp = os.path.join(wd, "files.json")
+    json.dump(files, open(fp, "w"))
+    rr = tlc_batch("AsmWF", "AsmWF.cfg", wd, {"SCCV_PROGS": fp}, len(files), timeout=T(tier, 900, 7000), xmx="12g")
+    verdict = {x["case"]: x for x in rr["results"]}
+    viols = []
+    for x in rr["results"]:
+        stats["%s:%s" % (x["backend"], x["status"])] += 1
+        if x["status"] == "fail":
+            rp = save_replay("C14", x["case"], {"file": x["case"], "why": x["why"], "tag": x["tag"], "asm": texts[x["case"]],
+                                                "source": meta.get(x["case"].split(":")[0], {}).get("src")})
+            viols.append({"signature": "C14:%s:%s:%s" % (x["backend"], x["tag"], lockstep.normalize_why(x["why"])), "replay": rp,
+                          "what": "%s: %s" % (x["case"], x["why"])})
+    # ground truth for x86-64: GNU as must accept every file, and must agree with the specification's verdict
+    nat = native.Native(work)
+    x86files = [f for f in files if f["backend"] == "x86"]
+    import concurrent.futures
+    def asm1(f):
+        obj, diag = nat.assemble(f["name"].replace(":", "_"), texts[f["name"]])
+        return f["name"], obj is not None, diag
+    with concurrent.futures.ThreadPoolExecutor(max_workers=12) as ex:
+        for name, ok, diag in ex.map(asm1, x86files):
+            v = verdict[name]
+            if ok and v["status"] == "fail" and v["tag"] in ("encode", "labels", "targets"):
+                raise ToolError("spec/AsmWF.tla rejects %s (%s) but GNU as accepts it: the specification is too strict" % (name, v["why"]))
+            if not ok:
+                stats["x86:as-rejected"] += 1
+                if v["status"] != "fail":
+                    d = " | ".join(sorted({re_sub_line(l) for l in diag.splitlines() if "rror" in l}))[:160]
+                    rp = save_replay("C14", "as-" + name, {"file": name, "diag": diag, "asm": texts[name]})
+                    viols.append({"signature": "C14:x86:as:%s" % lockstep.normalize_why(d), "replay": rp, "what": "%s: GNU as rejects the file: %s" % (name, d)})
+            else:
+                stats["x86:as-accepted"] += 1
+    log("[C14] %s" % dict(stats))
+    new = triage("C14", viols)
+    write_evidence("C14", tier, "model_checking",
+                   {"states": rr["distinct"], "transitions": rr["states"], "traces_validated_against_impl": len(files),
+                    "samples": [{"file": f["name"], "instructions": len(f["code"]), "labels": len(f["labels"])} for f in files[:3]],
+                    "outcomes": dict(stats), "adversarial_programs": len(adv),
+                    "rule": "every emitted file of generated programs (adversarial identifiers lab1/cleanup/asm_main/share_f_0, names equal "
+                            "to the labels the compiler generated for the same program, many-xtor types, literals of every magnitude in "
+                            "register and spill placements) judged statically by spec/AsmWF.tla on all three backends; x86-64 files "
+                            "additionally assembled by GNU as, whose verdict must agree with the specification in both directions"},
+                   time.time() - t0, len(viols), assumptions=["no AArch64 / RISC-V assembler is installed: operand ranges of spec/A64.tla are from the architecture manual"])
+    return 1 if new else 0
+
+
+# ---------------------------------------------------------------------------------------------- C19
+def size_families(k):
+    """scalable families of depth k: sequenced / nested branch points followed by further code"""
+    fams = {}
+    # sequenced conditionals, each followed by the rest of the program
+    lets = "".join("let x%d: i64 = if x%d == %d { x%d + 1 } else { x%d * 2 }; " % (i + 1, i, i, i, i) for i in range(k))
+    fams["seq_if"] = "def main(x0: i64): i64 { %sx%d }\n" % (lets, k)
+    # conditionals nested in operand position
+    e = "x0"
+    for i in range(k):
+        e = "(if %s < %d { %s + 1 } else { %s - 1 })" % (e, i, "x0", "x0") if i % 2 else "((if x0 == %d { 1 } else { 2 }) + %s)" % (i, e)
+    fams["operand_if"] = "def main(x0: i64): i64 { %s }\n" % e
+    # chain of lets over matches on a three-constructor type
+    decl = "data T { A, B(v: i64), C(l: T, r: T) }\n"
+    lets = "".join("let y%d: i64 = t.case { A => y%d, B(v) => v + y%d, C(l, r) => y%d * 2 }; " % (i + 1, i, i, i) for i in range(k))
+    fams["seq_case"] = decl + "def f(t: T, y0: i64): i64 { %sy%d }\ndef main(x0: i64): i64 { f(C(A, B(x0)), x0) }\n" % (lets, k)
+    # critical pairs over a multi-constructor type: a data value chosen by a conditional, then matched
+    lets = "".join("let t%d: T = if x0 == %d { A } else { B(%d) }; let z%d: i64 = t%d.case { A => z%d, B(v) => v, C(l, r) => 0 }; " % (i, i, i, i + 1, i, i) for i in range(k))
+    fams["critical_pairs"] = decl + "def main(x0: i64): i64 { let z0: i64 = x0; %sz%d }\n" % (lets, k)
+    # matches nested in scrutinee position
+    e = "B(x0)"
+    for i in range(k):
+        e = "(%s.case { A => B(%d), B(v) => if v == %d { A } else { B(v) }, C(l, r) => l })" % (e, i, i)
+    fams["scrutinee_case"] = decl + "def main(x0: i64): i64 { %s.case { A => 0, B(v) => v, C(l, r) => 1 } }\n" % e
+    # label/goto sequenced
+    lets = "".join("let w%d: i64 = label a%d { if w%d == %d { goto a%d (w%d + 1) } else { w%d } }; " % (i + 1, i, i, i, i, i, i) for i in range(k))
+    fams["seq_label"] = "def main(w0: i64): i64 { %sw%d }\n" % (lets, k)
+    return fams
+
+
+def check_C19(tier):
+    import time, collections, refine
+    t0 = time.time()
+    build_harness()
+    work = fresh_dir(WORK, "C19")
+    ks = [4, 8, 12, 16]
+    lst = []
+    for k in ks:
+        for nm, src in size_families(k).items():
+            lst.append({"name": "%s_%d" % (nm, k), "kind": "fun", "src": src})
+    lp = os.path.join(work, "list.json")
+    json.dump(lst, open(lp, "w"))
+    art = os.path.join(work, "art")
+    sccv("pipeline", lp, art, "fun,core,corefs,axcut,axcutlin,x86,a64,rv64", timeout=1200)
+    index = {c["name"]: c for c in json.load(open(os.path.join(art, "index.json")))}
+    srcsize = {c["name"]: len(c["src"].split()) for c in lst}
+    fams = []
+    for nm in size_families(4):
+        for stage, ext in (("core", "core.json"), ("corefs", "corefs.json"), ("axcut", "axcut.json"), ("axcutlin", "axcutlin.json"),
+                           ("x86", "x86.asm"), ("a64", "a64.asm"), ("rv64", "rv64.asm")):
+            sizes = []
+            for k in ks:
+                p = os.path.join(art, "%s_%d.%s" % (nm, k, ext))
+                if not os.path.exists(p):
+                    sizes = None
+                    break
+                if ext.endswith(".json"):
+                    sizes.append(len(json.load(open(p))["nodes"]))
+                else:
+                    sizes.append(len([i for i in refine.load_code(art, "%s_%d" % (nm, k), stage)["code"] if i["op"] not in ("mark",)]))
+            if sizes is None:
+                bad = [s for s in index["%s_%d" % (nm, 16)]["stages"] if s["outcome"] != "ok"]
+                if stage == "rv64" or any(m in (bad[0]["msg"] if bad else "") for m in lockstep.CAPACITY_MSGS):
+                    continue   # documented capacity (print-free RISC-V / live variables)
+                raise ToolError("family %s has no %s artifact: %s" % (nm, stage, bad[:1]))
+            fams.append({"name": nm, "stage": stage, "ks": ks, "src": [srcsize["%s_%d" % (nm, k)] for k in ks], "size": sizes})
+    wd = os.path.join(work, "tlc")
+    os.makedirs(wd, exist_ok=True)
+    fp = os.path.join(wd, "fams.json")
+    json.dump(fams, open(fp, "w"))
+    r = tlc_batch("Sizes", "Sizes.cfg", wd, {"SCCV_CASES": fp}, len(fams), timeout=600, workers=4)
+    viols = []
+    for x in r["results"]:
+        if x["status"] == "fail":
+            rp = save_replay("C19", x["case"], x)
+            viols.append({"signature": "C19:%s" % x["case"], "what": "%s: %s (sizes %s for source sizes %s)" % (x["case"], x["why"], x["size"], x["src"]), "replay": rp})
+    log("[C19] %d family/stage pairs, %d failing" % (len(fams), len(viols)))
+    new = triage("C19", viols)
+    write_evidence("C19", tier, "exploration",
+                   {"evaluations": len(fams) * len(ks), "distinct_nontrivial": len(fams),
+                    "rule": "6 scalable families (sequenced conditionals, conditionals in operand position, sequenced matches on a "
+                            "3-constructor type, critical pairs, matches in scrutinee position, sequenced labels) at depth 4, 8, 12, 16 "
+                            "through the real pipeline; size = node count of each dumped stage / instruction count of each backend's text; "
+                            "spec/Sizes.tla evaluates Growth and Quadratic; a family/stage pair is non-trivial when its four sizes differ",
+                    "samples": [{"family": f["name"], "stage": f["stage"], "source_tokens": f["src"], "sizes": f["size"]} for f in fams[:6]],
+                    "states": r["distinct"], "transitions": r["states"]},
                    time.time() - t0, len(viols))
     return 1 if new else 0
